@@ -38,7 +38,7 @@ Verdict check_approx(const TGraph &t, const std::string &algo, std::size_t k, co
     {
         BG<W> bg(t);
         std::list<std::list<typename BG<W>::Edge>> cycles;
-        try { ret = (double) run_algo<W>(algo, bg, k, cycles); }
+        try { ret = (double) run_algo<W>(algo, bg, k, cycles); vp_dig_double(ret); vp_dig(cycles.size()); }
         catch (std::runtime_error &e) { threw = true; what = e.what(); }
         catch (...) { return {"approx-exception-type", "threw something that is not a std::runtime_error"}; }
         if (k == 0) {
